@@ -740,3 +740,50 @@ Section RUN_INV.
     - intros pg pn Hp. congruence.
   Qed.
 End RUN_INV.
+
+(* ------------------------------------------------------------------ no child wake-up lost *)
+(* the owners of graph c, up to the root, are armed and due no later than what they own: each owner slot
+   is armed in its graph and <= the cached next time of the child it owns.  This is what the push and the
+   pull establish (NestedFacts.push_arms_owner / pull_arms_owner). *)
+Fixpoint owners_due (d : nat) (T : tcfg) (c : nat) (w : world) : Prop :=
+  match gc_parent (gcfg_at T c) with
+  | None => c = 0%nat
+  | Some (pg, pn) =>
+      match d with
+      | O => False
+      | S d' =>
+          g_started (gat pg w) = true
+          /\ (pn < length (gc_nodes (gcfg_at T pg)))%nat /\ (pn < length (g_slots (gat pg w)))%nat
+          /\ g_now (gat pg w) < slot_at pn (gat pg w) <= g_nst (gat c w)
+          /\ owners_due d' T pg w
+      end
+  end.
+
+Lemma root_next_le_child_slot T : forall d c j w,
+  Cov T w -> Quiet 0 w -> g_started (gat c w) = true ->
+  (j < length (gc_nodes (gcfg_at T c)))%nat -> (j < length (g_slots (gat c w)))%nat ->
+  g_now (gat c w) < slot_at j (gat c w) ->
+  owners_due d T c w ->
+  g_nst (gat 0 w) <= slot_at j (gat c w).
+Proof.
+  induction d as [|d IH]; intros c j w C Q S Hj Hs Harm Ho; simpl in Ho;
+    assert (Hc : g_nst (gat c w) <= slot_at j (gat c w))
+      by (destruct (C c (Q c ltac:(lia))) as [_ B]; apply (B S j Hj Hs Harm)).
+  - destruct (gc_parent (gcfg_at T c)) as [[pg pn]|]; [tauto|]. subst c. exact Hc.
+  - destruct (gc_parent (gcfg_at T c)) as [[pg pn]|]; [|subst c; exact Hc].
+    destruct Ho as (Sp & Hn & Hns & [Ha Hd] & Ho).
+    specialize (IH pg pn w C Q Sp Hn Hns Ha Ho). lia.
+Qed.
+
+(* ---- non-vacuity material ---- *)
+Lemma wf_nest2 : wf_tree (decode nest2_case).
+Proof.
+  repeat split.
+  - intros g pg pn. destruct g as [|[|[|[|g]]]]; vm_compute; intros H; try discriminate; inversion H; subst; lia.
+  - intros g i. destruct g as [|[|[|[|g]]]]; destruct i as [|[|[|[|[|[|i]]]]]]; vm_compute; intros H; try discriminate; reflexivity.
+Qed.
+
+Lemma no_try_nest2 : no_try (decode nest2_case).
+Proof.
+  intros g i. destruct g as [|[|[|[|g]]]]; destruct i as [|[|[|[|[|[|i]]]]]]; vm_compute; intros H; discriminate.
+Qed.
